@@ -1,4 +1,8 @@
-"""C18 - pages go only where requested: the output directory, or stdout."""
+"""C18 - pages go only where requested: the output directory, or stdout.
+Replay spec: {"files", "proj", "out", "out_kind", "prepop": {rel: text}, "mode": "o"|"stdout", "input_kind", "input_file",
+ "recursive", "auto_exclude", "prefix", "rst", "input_opts", "config_dir_absent",
+ "variants": [{"cwd", "input", "output", "listing_key", "listing_explicit", "prefix_src", "faults"}]}
+"""
 import posixpath
 
 from hypothesis import strategies as st
